@@ -1,6 +1,7 @@
 package props
 
 import (
+	"bytes"
 	"encoding/json"
 	"errors"
 	"fmt"
@@ -121,6 +122,10 @@ func c08RevComp(s string) string {
 			b[i] = 'G'
 		case 'G':
 			b[i] = 'C'
+		case 'R':
+			b[i] = 'Y'
+		case 'Y':
+			b[i] = 'R'
 		}
 	}
 	return string(b)
@@ -155,7 +160,21 @@ func c08Rel(c *mc.Ctx, cs c08Case) {
 	// denominator) the distance is undefined; how "undefined" is rendered (NaN, Inf, 2*max, a huge value
 	// produced by rounding) legitimately depends on the order of the floating-point operations, so
 	// "unchanged up to rounding" cannot be demanded there.  C07 decides what is reported for such pairs.
-	if c08Singular(cs.Seqs, cs.Model, cs.RmGaps) {
+	iupac := strings.ContainsAny(strings.Join(cs.Seqs, ""), "RY")
+	if iupac {
+		// With ambiguity codes the harness does not re-derive the estimator's arguments (how a code is
+		// shared between bases is C07's business); a case is taken as regular when every entry is finite
+		// and moderate, and the transformed alignments are held to the same matrix.
+		for i := range base {
+			for j := range base {
+				if math.IsNaN(base[i][j]) || math.IsInf(base[i][j], 0) || math.Abs(base[i][j]) > 3 {
+					c.Skip("rel: ambiguity-code case with a non-finite or large entry (possibly at a singularity)")
+					c.Outcome("rel:" + cs.Model + ":singular-skipped")
+					return
+				}
+			}
+		}
+	} else if c08Singular(cs.Seqs, cs.Model, cs.RmGaps) {
 		c.Skip("rel: some pair is at or beyond a singularity of the estimator (undefined distance; C07's business)")
 		c.Outcome("rel:" + cs.Model + ":singular-skipped")
 		return
@@ -612,6 +631,15 @@ func c08Tasks(tier string) []mc.Task {
 		}
 		ts = append(ts, mc.Task{Name: fmt.Sprintf("sched#ranges/cpus%d", cpus), Run: func(c *mc.Ctx) { c08Sched(c, cs, false) }})
 	}
+	// a pair whose estimator is undefined (p = 3/4 under JC: +Inf): the matrix-wide maximum that
+	// replaces it is accumulated by the workers and must not depend on the schedule
+	for _, cpus := range []int{2, 3} {
+		cs := c08Case{Kind: "sched", Seqs: []string{"AAAA", "CCCA", "AACA"}, Model: "jc", Cpus: cpus, Bound: 2}
+		if thorough {
+			cs.Bound = 3
+		}
+		ts = append(ts, mc.Task{Name: fmt.Sprintf("sched#maxfill/cpus%d", cpus), Run: func(c *mc.Ctx) { c08Sched(c, cs, false) }})
+	}
 	// full-buffer path: 15 sequences = 105 pairs > channel capacity 100
 	{
 		var seqs []string
@@ -698,6 +726,31 @@ func c08Tasks(tier string) []mc.Task {
 								c08Rel(c, c08Case{Kind: "rel", Seqs: seqs, Model: model, RmGaps: rm, GapMut: gm})
 							}
 						}
+						return !c.Expired()
+					})
+				}})
+			}
+		}
+	}
+	// ambiguity codes: purine / pyrimidine codes R and Y next to A, G, C (strand symmetry of the
+	// transition/transversion classification, sharing of codes in base frequencies)
+	for _, sh := range []shape{{2, 1}, {2, 2}, {2, 3}} {
+		sh := sh
+		if sh.L == 3 && !thorough {
+			continue
+		}
+		for _, model := range c08Models {
+			model := model
+			const ia = "AGCRY"
+			for i := 0; i < len(ia); i++ {
+				pf := ia[i : i+1]
+				ts = append(ts, mc.Task{Name: fmt.Sprintf("reliupac#%s/%dx%d/%s", model, sh.n, sh.L, pf), Run: func(c *mc.Ctx) {
+					forEachStringLen(ia, sh.n*sh.L, []byte(pf), func(s []byte) bool {
+						if !bytes.ContainsAny(s, "RY") {
+							return true
+						}
+						seqs := []string{string(s[:sh.L]), string(s[sh.L:])}
+						c08Rel(c, c08Case{Kind: "rel", Seqs: seqs, Model: model})
 						return !c.Expired()
 					})
 				}})
